@@ -151,7 +151,30 @@ def prop_crowd(ctx, case):
     ctx.note(['crowd', n, cut, seed], nontrivial=True, classes=[f'crowd:{n}'])
 
 
-PROPS = {'interleave': prop_interleave, 'crowd': prop_crowd}
+def prop_same_tick(ctx, case):
+    """two threads on two CPUs doing the same thing in the same ticks (equal timestamps, equal record counts) on different
+    paths: each thread's traces are those of its own records, whichever thread the merge lists first"""
+    seed, n = case['seed'], case['n']
+    tids = SC.PROGRAM_TIDS[:2]
+    paths = [b'/same/tick/%d/' % i + SC.path_text(seed + i, i)[:n] .replace(b'/', b'_') for i in range(2)]
+    paths = [p + bytes([0x61 + i]) * (n - len(p)) if len(p) < n else p[:n - 1] + bytes([0x61 + i]) for i, p in enumerate(paths)]
+    progs = [[SC.ev(t, 'BSC_open', 1, seed, 0)] + EV.lookup_events(t, 77, paths[i]) + [SC.ev(t, 'BSC_open', 2, seed, 1)] for i, t in enumerate(tids)]
+    if len(progs[0]) != len(progs[1]):
+        return
+    serial = [(i, p) for i in range(2) for p in range(len(progs[i]))]
+    swapped = [(i, p) for i in (1, 0) for p in range(len(progs[i]))]
+    alternating = [(i, p) for p in range(len(progs[0])) for i in range(2)]
+    r1, _ = guard(run_schedule, progs, serial, True)
+    for label, order in (('other thread first', swapped), ('alternating', alternating)):
+        r2, _ = guard(run_schedule, progs, order, True)
+        for tid in tids:
+            if r1.get(tid) != r2.get(tid):
+                raise Violation('per-thread-result:same-tick', f'thread {tid:#x} ({label}): {[x[0] for x in r2.get(tid, [])][:3]}, '
+                                                               f'serial {[x[0] for x in r1.get(tid, [])][:3]} (both threads log in the same ticks)')
+    ctx.note(['same-tick', n, seed], nontrivial=True, classes=['same-tick', 'path-records:%d' % ((n + 31) // 32)])
+
+
+PROPS = {'interleave': prop_interleave, 'crowd': prop_crowd, 'same_tick': prop_same_tick}
 
 
 def schedule():
@@ -175,4 +198,6 @@ def run(ctx):
                                                             'dups': pairs, 'terminates': pairs, 'shared_names': st.just(True)}))
     ctx.run_given('interleave', shared, prop_interleave, ctx.n(600, 5000))
     crowd = [{'n': n, 'seed': ctx.seed * 31 + k, 'cut': ctx.seed + k} for k, n in enumerate([1030, 4100] if ctx.quick else [300, 1030, 2050, 4100, 8200, 16500])]
+    ctx.run_enum('same_tick', [{'seed': ctx.seed * 7919 + k, 'n': n} for k, n in enumerate([20, 24, 25, 40, 57, 120, 184])], prop_same_tick,
+                 exhaustive_label=None)
     ctx.run_enum('crowd', crowd, prop_crowd, exhaustive_label='one open() window with 1030 / 4100 (thorough: up to 16500) other threads starting calls inside it')
